@@ -8,7 +8,7 @@ import (
 func init() { props["C07"] = checkC07 }
 
 func checkC07(r *Run) {
-	r.Explain = "C07: (R1) the derived-index buckets (address index, unspent meta, the five history buckets) are written only by their accessors, reached only from block execution (ProcessBlock / ParseBlock) or the rebuild paths (buildAddrIndex / Erase); (R2) ProcessBlock co-updates: each deleted/inserted output is folded into the checksum, the address index is adjusted for every touched address and the index height is set to the block's sequence on success; (R3) poolAddrIndex.adjust rejects inconsistent removals/additions and deletes empty rows; (R4) ParseBlock records, for every transaction, the txn, every spent input (marking the output spent and indexing the owner address) and every created output, then the parsed height; the rebuild parses from the genesis block when nothing was parsed, in the same db transaction as the erase; (R5) predicted balances: one db view reads head, all pool transactions, the outputs spent by all their inputs, the outputs they create for the requested addresses and the confirmed outputs; predicted[addr] = confirmed[addr].Sub(spentByPool[addr]).Add(incoming[addr]) with the same address on all three lookups; spentByPool groups by owner restricted to requested addresses; every requested address has an entry in the confirmed map (so the all-zero branch is dead); the four reported numbers are the coin/hour totals of the confirmed resp. predicted arrays at head time; one pair per address in order."
+	r.Explain = "(R6) getBlockInputs calculates the input hours of every transaction of a block at the time of block seq-1 read from the chain; C07: (R1) the derived-index buckets (address index, unspent meta, the five history buckets) are written only by their accessors, reached only from block execution (ProcessBlock / ParseBlock) or the rebuild paths (buildAddrIndex / Erase); (R2) ProcessBlock co-updates: each deleted/inserted output is folded into the checksum, the address index is adjusted for every touched address and the index height is set to the block's sequence on success; (R3) poolAddrIndex.adjust rejects inconsistent removals/additions and deletes empty rows; (R4) ParseBlock records, for every transaction, the txn, every spent input (marking the output spent and indexing the owner address) and every created output, then the parsed height; the rebuild parses from the genesis block when nothing was parsed, in the same db transaction as the erase; (R5) predicted balances: one db view reads head, all pool transactions, the outputs spent by all their inputs, the outputs they create for the requested addresses and the confirmed outputs; predicted[addr] = confirmed[addr].Sub(spentByPool[addr]).Add(incoming[addr]) with the same address on all three lookups; spentByPool groups by owner restricted to requested addresses; every requested address has an entry in the confirmed map (so the all-zero branch is dead); the four reported numbers are the coin/hour totals of the confirmed resp. predicted arrays at head time; one pair per address in order."
 	r.NotDec = "equality of the views with a recomputation for concrete histories"
 	// R1
 	allowed := map[string][]string{
@@ -115,6 +115,25 @@ func checkC07(r *Run) {
 			ok := r.argTerm(cs, 0) == "$0" && r.argTerm(cs, 3) == "visor.Blockchain.HeadSeq($1, $0)#0"
 			r.Check("C07-R4", "initHistory re-parses up to the chain head in the caller's transaction", r.P.Pos(cs.Pos()), ok, "")
 		}
+	}
+	// R6 block queries: the input hours shown for a block's transactions are calculated at the time of the block
+	// that directly precedes it on the chain (seq-1, read from the db), whatever query produced the block
+	const gbi = "visor.Visor.getBlockInputs"
+	if fn := r.fn("C07-R6", gbi); fn != nil {
+		ff := r.P.Facts(fn)
+		n := 0
+		const PREV = "iface:visor.Blockchainer.GetSignedBlockBySeq($0.blockchain, $1, ($2.Block.Head.BkSeq - 1))#0"
+		for _, cs := range r.CallSites(fn, "visor.Visor.getTransactionInputs") {
+			n++
+			t := ff.Term(cs.Common().Args[2])
+			r.Check("C07-R6", gbi+": input hours are calculated at the time of block seq-1 read from the chain", r.P.Pos(cs.Pos()), t == PREV+".Block.Head.Time", t)
+			lp := ff.innermost[cs.Block()]
+			r.Check("C07-R6", gbi+": inputs resolved for every transaction of the block, in order", r.P.Pos(cs.Pos()), lp != nil && ff.loopSpace(lp) == "i < len($2.Block.Body.Transactions)" && ff.everyIteration(cs.Block(), lp) && ff.Term(cs.Common().Args[3]) == "$2.Block.Body.Transactions[i].In", ff.Term(cs.Common().Args[3]))
+		}
+		r.Check("C07-R6", gbi+": getTransactionInputs sites", "", n == 1, "")
+		r.RequireOnSuccessExcept("C07-R6", gbi, []string{"$2 == nil", "$2.Block.Head.BkSeq == 0"},
+			req("previous block read", "ok(iface:visor.Blockchainer.GetSignedBlockBySeq($0.blockchain, $1, ($2.Block.Head.BkSeq - 1)))"),
+			req("previous block exists", PREV+" != nil"))
 	}
 	// R5 predicted balance = confirmed - spent-by-pool + created-by-pool, for every requested address
 	c07Predicted(r)
